@@ -36,6 +36,9 @@ pub enum Fault {
     UnknownSample,
     /// projection target larger than the population / of the wrong dimensionality
     BadProjection,
+    /// --precision beyond what the text writer can honour (an inadmissible request that is only
+    /// noticed when the result is written)
+    BadPrecision,
 }
 
 #[derive(Clone, Debug, Serialize, Deserialize)]
@@ -232,6 +235,7 @@ impl Prop for C10 {
             Fault::ReadErrorAtRecord,
             Fault::UnknownSample,
             Fault::BadProjection,
+            Fault::BadPrecision,
         ];
         let fault = if big_l2 {
             *rng.pick(&[Fault::None, Fault::None, Fault::StrictViolation, Fault::PloidySelected])
@@ -730,7 +734,14 @@ fn parse_skipped(stderr: &str) -> (Option<(usize, usize)>, Vec<String>) {
 }
 
 fn l2_create(ctx: &mut Ctx, cfg: &Config, bytes: &[u8], plan: Option<Plan>, verbose: u8, samples_file: bool, stdin_chunks: Option<(usize, usize)>) -> ChildResult {
+    l2_create_with(ctx, cfg, bytes, plan, verbose, samples_file, stdin_chunks, &[])
+}
+
+/// `extra`: further command-line arguments (--threads N, --precision P)
+#[allow(clippy::too_many_arguments)]
+fn l2_create_with(ctx: &mut Ctx, cfg: &Config, bytes: &[u8], plan: Option<Plan>, verbose: u8, samples_file: bool, stdin_chunks: Option<(usize, usize)>, extra: &[String]) -> ChildResult {
     let mut args = vec!["create".to_string()];
+    args.extend(extra.iter().cloned());
     // chunked stdin only where no other plan governs the input file
     let via_stdin = stdin_chunks.filter(|_| plan.is_none());
     let mut files = if via_stdin.is_some() { vec![] } else { vec![("in.dat".to_string(), gen::hex(bytes))] };
@@ -743,7 +754,7 @@ fn l2_create(ctx: &mut Ctx, cfg: &Config, bytes: &[u8], plan: Option<Plan>, verb
     } else {
         args.extend(cfg.cli_args());
     }
-    if cfg.project.is_some() {
+    if cfg.project.is_some() && !extra.iter().any(|a| a == "--precision") {
         args.push("--precision".into());
         args.push("12".into());
     }
@@ -802,6 +813,15 @@ fn run_l2_at(case: &Case, i: usize, ctx: &mut Ctx, out: &mut Outcome) {
             list.insert(at, ("no_such_sample".to_string(), if i % 2 == 0 { None } else { Some("P9".to_string()) }));
             cfg.project = None;
         }
+        Fault::BadPrecision => {
+            // create honours --precision only for projected (fractional) output: the request is
+            // inadmissible together with a projection, here onto the full shape
+            if cfg.project.is_none() {
+                let sizes = cfg.pop_sizes(&cs.samples);
+                cfg.project = Some(sizes.iter().map(|s| 2 * s + 1).collect());
+            }
+            cfg.strict = false;
+        }
         Fault::BadProjection => {
             let sizes = cfg.pop_sizes(&cs.samples);
             let mut shape: Vec<usize> = sizes.iter().map(|s| 2 * s + 1).collect();
@@ -815,7 +835,19 @@ fn run_l2_at(case: &Case, i: usize, ctx: &mut Ctx, out: &mut Outcome) {
         }
         _ => {}
     }
-    let r = l2_create(ctx, &cfg, &bytes, plan, case.verbosity, case.samples_file, case.stdin_chunks);
+    // the thread count is a dimension of every process-level run (1, 2, default, 7): the accounting
+    // must not depend on it; the precision is an inadmissible request of its own
+    let mut extra: Vec<String> = vec![];
+    match (i + cs.recs.len()) % 4 {
+        0 => extra.extend(["--threads".to_string(), "1".to_string()]),
+        1 => extra.extend(["--threads".to_string(), "2".to_string()]),
+        2 => extra.extend(["--threads".to_string(), "7".to_string()]),
+        _ => {}
+    }
+    if case.fault == Fault::BadPrecision {
+        extra.extend(["--precision".to_string(), ["65536", "70000", "4294967296", "18446744073709551615"][i % 4].to_string()]);
+    }
+    let r = l2_create_with(ctx, &cfg, &bytes, plan, case.verbosity, case.samples_file, case.stdin_chunks, &extra);
     out.evals += 1;
     out.count("l2.runs", 1);
     out.steps += r.events.len() as u64 + cs.recs.len() as u64;
@@ -864,7 +896,7 @@ fn run_l2_at(case: &Case, i: usize, ctx: &mut Ctx, out: &mut Outcome) {
         );
         return;
     }
-    if matches!(case.fault, Fault::UnknownSample | Fault::BadProjection) {
+    if matches!(case.fault, Fault::UnknownSample | Fault::BadProjection | Fault::BadPrecision) {
         if r.ok() {
             out.violate(
                 "inadmissible_request_accepted",
